@@ -82,7 +82,9 @@ def replay(scratch, rp, ce, params, profiles=(False, True), variants=True):
             for r_ in range(int(rp.get("par_runs", 0))):
                 th = (2, 3, 4, 8, 16)[r_ % 5]
                 outs[f"release/{th} threads #{r_}"] = run_native(scratch, fields, release=True, threads=th)
-            verdicts = {k: judge(v) for k, v in outs.items()}
+            # a native run that does not finish is evidence only where the replay says so (lock stress: deadlock); elsewhere it is
+            # a non-result (loaded machine), never a reproduction
+            verdicts = {k: ((False, v["timeout"]) if ("timeout" in v and not rp.get("timeout_is_failure")) else judge(v)) for k, v in outs.items()}
             ok = any(v[0] for v in verdicts.values())
             note = "; ".join(f"{k}: {v[1]}" for k, v in verdicts.items())
             if label: note = f"[neighbouring input: {label}] " + note
